@@ -550,11 +550,14 @@ func concScenario(progs [][]Op) func() *sched.Harness {
 		var mu sync.Mutex
 		var returned []string // "client:op" in return order, with the file length at return time
 		type ret struct {
-			who  string
-			op   Op
-			res  res
-			size int64
+			who     string
+			op      Op
+			res     res
+			size    int64
+			durable int64
 		}
+		var durable int64
+		var syncStart map[*vos.Call]int64
 		var rets []ret
 		return &sched.Harness{
 			Setup: func(x *sched.Exec) {
@@ -574,8 +577,25 @@ func concScenario(progs [][]Op) func() *sched.Harness {
 				d.Put(su, "a", []byte("one"))
 				d.Put(su, "a", []byte("two"))
 				os.Truncate(apath, 0)
+				// durability model of the audit file: a completed fsync makes durable whatever the file held when it started
+				durable, syncStart = 0, map[*vos.Call]int64{}
 				vos.SetHook(&hx.GateFS{Filter: func(c *vos.Call) bool {
 					return filepath.Base(c.Path) == "audit.log" && (c.Op == "write" || c.Op == "sync")
+				}, OnCall: func(c *vos.Call) {
+					if c.Op == "sync" {
+						fi, _ := os.Stat(apath)
+						mu.Lock()
+						syncStart[c] = fi.Size()
+						mu.Unlock()
+					}
+				}, OnDone: func(c *vos.Call, err error) {
+					if c.Op == "sync" && err == nil {
+						mu.Lock()
+						if syncStart[c] > durable {
+							durable = syncStart[c]
+						}
+						mu.Unlock()
+					}
 				}})
 				for i, prog := range progs {
 					i, prog := i, prog
@@ -586,7 +606,7 @@ func concScenario(progs [][]Op) func() *sched.Harness {
 							r := apply(d, caller, o)
 							fi, _ := os.Stat(apath)
 							mu.Lock()
-							rets = append(rets, ret{who: caller.Principal.User, op: o, res: r, size: fi.Size()})
+							rets = append(rets, ret{who: caller.Principal.User, op: o, res: r, size: fi.Size(), durable: durable})
 							mu.Unlock()
 						}
 					})
@@ -639,6 +659,15 @@ func concScenario(progs [][]Op) func() *sched.Harness {
 						}
 						if !found {
 							return fmt.Errorf("record missing at return: %s %v returned %v but no complete record of it was in the audit file at that moment", r.who, r.op, r.res.class)
+						}
+						synced := false
+						for k, e := range lines {
+							if e.Principal.User == r.who && e.Action == string(r.op.action()) && e.Secret == r.op.Name && offs[k] <= r.durable {
+								synced = true
+							}
+						}
+						if !synced {
+							return fmt.Errorf("record not synced at return: %s %v returned %v, but no fsync that began after its record was appended had completed by then (durable %d bytes)", r.who, r.op, r.res.class, r.durable)
 						}
 					}
 				}
